@@ -144,6 +144,21 @@ CLAIMED = {
               "loop invariants (initiation / arbitrary iteration / exit) for the scan; z3 QF_BV",
     note=TB + "; unit contracts contracts/units/device103.py and the ScanBus abstraction in checks/c13.py are assumed; "
          "numberOfInstances <= 32; 'healthy' = short address not MASK and not in reset state"),
+ "C09": dict(
+    category="proof",
+    text="The real read_raw / read of every declared memory value and read_all of every bank are executed symbolically "
+         "against an assumed IEC 62386-102 9.10 memory-access contract whose whole image, last accessible location and one "
+         "unimplemented location are symbolic, for gear and device addressing: read_raw returns exactly the bytes at the "
+         "declared locations, raises MemoryLocationNotImplemented exactly when a location is beyond the last accessible one "
+         "or unimplemented, ResponseError on a framing error; read interprets them by the C11 specification; read_all is "
+         "verified with the loop rule over a list of symbolic length (invariant: entry j is the unit's byte or None, DTR0 = j, "
+         "write-enable cleared after the first read, image unchanged) and reports exactly the fully implemented values, each "
+         "equal to the interpretation of the (latched) snapshot bytes; afterwards every location other than the lock byte "
+         "is unchanged and the bank is not left latched.",
+    design_ref="DESIGN.md 6 (C09), 3.6, 3.7",
+    technique="contract-based deductive verification: generators as procedures against an assumed unit contract, loop "
+              "invariant for the whole-bank read, callee contract (uninterpreted result) for from_list; z3 QF_BV",
+    note=TB + "; unit contract contracts/units/memory.py assumed (single bank, at most one hole, lock byte implemented)"),
 }
 
 NA_REASON = "check under construction in this round (no obligations built yet); see DESIGN.md section 6"
